@@ -14,8 +14,9 @@ fn values() -> Vec<Value> {
          Value::from(vec![Value::symbol("a"), Value::from(1.5)]), Value::from(true), Value::Nil, Value::Null, Value::symbol("bar"), Value::from(-7)]
 }
 
-fn cases(_ob: &str) -> Vec<String> {
+fn cases(ob: &str) -> Vec<String> {
     let mut out = vec![];
+    if let Some(seed) = crate::gen::thorough_seed(ob) { for t in crate::gen::texts(seed ^ 12, 400, true) { out.push(format!("iterx:{}", crate::hex(t.as_bytes()))); } }
     for (ti, _) in trivia().iter().enumerate() {
         for i in 0..values().len() {
             for j in 0..values().len() {
@@ -50,21 +51,33 @@ fn check(case: &str) -> Option<String> {
             }
             None
         }
-        "iter" => {
+        "iter" | "iterx" => {
+            // the four ways of iterating, item by item (capped): they must agree; on the fixed inputs ("iter") they must also end
             let bytes = crate::unhex(p[1]);
-            let mut parser = Parser::from_slice_custom(&bytes, parse::Options::default());
-            let mut n = 0usize;
-            for _item in parser.value_iter() {
-                n += 1;
-                if n > bytes.len() + 2 { return Some(format!("value_iter over {:?} yields more than {} items (does not terminate)", String::from_utf8_lossy(&bytes), bytes.len() + 2)); }
+            let cap = bytes.len() + 3;
+            let show = |r: Option<Result<Value, parse::Error>>| match r { None => "end".to_string(), Some(Ok(v)) => format!("Ok({})", v), Some(Err(e)) => format!("Err({})", e) };
+            let mut runs: Vec<Vec<String>> = vec![];
+            for mode in 0..4 {
+                let mut parser = Parser::from_slice_custom(&bytes, parse::Options::default());
+                let mut items = vec![];
+                for _ in 0..cap {
+                    let it = match mode {
+                        0 => parser.next_value().transpose(),
+                        1 => parser.value_iter().next(),
+                        2 => parser.datum_iter().next().map(|r| r.map(|d| d.value().clone())),
+                        _ => parser.next(),
+                    };
+                    let done = it.is_none();
+                    items.push(show(it));
+                    if done { break; }
+                }
+                runs.push(items);
             }
-            let mut p2 = Parser::from_slice_custom(&bytes, parse::Options::default());
-            let mut m = 0usize;
-            for _item in p2.datum_iter() { m += 1; if m > bytes.len() + 2 { return Some(format!("datum_iter over {:?} yields more than {} items (does not terminate)", String::from_utf8_lossy(&bytes), bytes.len() + 2)); } }
-            let mut p3 = Parser::from_slice_custom(&bytes, parse::Options::default());
-            let mut k = 0usize;
-            while let Some(_) = p3.next() { k += 1; if k > bytes.len() + 2 { return Some(format!("Iterator for Parser over {:?} yields more than {} items (does not terminate)", String::from_utf8_lossy(&bytes), bytes.len() + 2)); } }
-            if n != m || n != k { return Some(format!("iteration styles disagree on item count: {} {} {}", n, m, k)); }
+            let names = ["next_value loop", "value_iter", "datum_iter", "Iterator for Parser"];
+            for m in 1..4 { if runs[m] != runs[0] { return Some(format!("over {:?} the {} yields {:?} but the {} yields {:?}", String::from_utf8_lossy(&bytes), names[0], runs[0], names[m], runs[m])); } }
+            if p[0] == "iter" && runs[1].last().map(|s| s.as_str()) != Some("end") {
+                return Some(format!("value_iter over {:?} yields more than {} items (does not terminate)", String::from_utf8_lossy(&bytes), cap - 1));
+            }
             None
         }
         _ => None,
